@@ -171,6 +171,11 @@ def run_impl(modname, cases, env=None, nworkers=4, timeout=3000, tag="normal"):
     e["PYTHONPATH"] = f"{VERIF}:{REPO}"
     e.setdefault("PYTHONHASHSEED", "0")
     e["PYTHONWARNINGS"] = "ignore"
+    # keep the machine usable when several checks run side by side (modules may override via MODES env)
+    e.setdefault("NUMBA_NUM_THREADS", "4")
+    e.setdefault("OMP_NUM_THREADS", "2")
+    e.setdefault("OPENBLAS_NUM_THREADS", "2")
+    e.setdefault("MKL_NUM_THREADS", "2")
     if env:
         e.update(env)
 
